@@ -25,7 +25,9 @@ def real_dim_dict(dim, kind, alias="arr"):
         refs = {"alias": it["alias"], "name": "N " + it["alias"]}
         if it.get("anchor"):
             refs["anchor"] = "top"
-        value = {"id": it["subvar_id"], "references": refs}
+        value = {"references": refs}
+        if not it.get("no_id"):
+            value["id"] = it["subvar_id"]         # `value.id` is optional: an element may come without it
         if kind != "NUM_ARRAY":
             value["derived"] = bool(it.get("derived"))
         els.append({"id": it["id"], "missing": False, "value": value})
